@@ -7,7 +7,8 @@ stdin JSON (all keys optional):
    "seq":   [{"filter": id|null, "updates": bool, "events": [[dt_ms, pdu, addr id, txadd, rssi, hex], ...]}, ...]
                                              one AdvertisingDevicesDB per case, on_device_found per event; the name `time`
                                              of whad.ble.scanning is a virtual clock advanced by dt_ms before each call
-   "api":   [[["parse", hex] | ["set", i, j, "name"|"company"|"data", hex|int] | ["ser", i], ...], ...]
+   "api":   [[["parse", hex] | ["build", [call..]] | ["add", i, call] | ["remove", i, j]
+               | ["set", i, j, "name"|"company"|"data", hex|int] | ["ser", i] | ["reparse", i], ...], ...]
                                              operation sequences in ONE process: lists[i] = i-th successful parse,
                                              lists[i][j].<attr> = value through the public setter, lists[i].to_bytes()
    "exh":   {"len": 3, "lo": a, "hi": b},    exhaustive oracle on all strings of that length whose first byte is in [a,b)
@@ -140,6 +141,18 @@ def do_api(ops):
     del URLS[:]
     lists, res = [], []
     for op in ops:
+        try:
+            stop = do_api_op(op, lists, res)
+        except Exception as e:  # noqa  the list does not have the shape the sequence assumes (e.g. a record is missing)
+            res.append({"op_exc": exc_name(e)})
+            break
+        if stop:
+            break
+    return {"steps": res, "urls": list(URLS)}
+
+
+def do_api_op(op, lists, res):
+    if True:
         if op[0] == "parse":
             try:
                 l = AdvDataFieldList.from_bytes(bytes.fromhex(op[1]))
@@ -154,12 +167,45 @@ def do_api(ops):
                 raise TypeError("no public setter %s on %s" % (attr, type(rec).__name__))
             setattr(rec, attr, val if attr == "company" else bytes.fromhex(val))
             res.append({})
-        elif op[0] == "ser":
+        elif op[0] == "build":
             try:
-                res.append({"bytes": lists[op[1]].to_bytes().hex()})
+                l = AdvDataFieldList(*[construct(c) for c in op[1]])
+                lists.append(l)
+                res.append({"out": [canon(l[i]) for i in range(len(l))]})
             except Exception as e:  # noqa
                 res.append({"exc": exc_name(e)})
-    return {"steps": res, "urls": list(URLS)}
+                return True         # the following operations address the list that was not built
+        elif op[0] == "add":
+            try:
+                lists[op[1]].add(construct(op[2]))
+                res.append({})
+            except Exception as e:  # noqa
+                res.append({"exc": exc_name(e)})
+        elif op[0] == "remove":
+            lists[op[1]].remove(lists[op[1]][op[2]])
+            res.append({})
+        elif op[0] in ("ser", "reparse"):
+            l = lists[op[1]]
+            st = {"current": [canon(l[i]) for i in range(len(l))]}
+            # what a brand-new list holding the very same record objects serialises to
+            try:
+                st["fresh"] = AdvDataFieldList(*[l[i] for i in range(len(l))]).to_bytes().hex()
+            except Exception as e:  # noqa
+                st["fresh_exc"] = exc_name(e)
+            try:
+                b = l.to_bytes()
+                st["bytes"] = b.hex()
+            except Exception as e:  # noqa
+                st["exc"] = exc_name(e)
+                b = None
+            if op[0] == "reparse" and b is not None:
+                try:
+                    p = AdvDataFieldList.from_bytes(b)
+                    st["out"] = [canon(p[i]) for i in range(len(p))]
+                except Exception as e:  # noqa
+                    st["parse_exc"] = exc_name(e)
+            res.append(st)
+    return False
 
 
 def mk_uuid(hx):
